@@ -18,6 +18,7 @@ from harness import common as cm
 import pySDC.helpers.fieldsIO as fio
 
 PID = 'C16'
+BOUNDS = {'quick': dict(nVar='>=1 symbolic', records='k>=0 symbolic', crash_offset='every byte (symbolic)', times_k='0..3', block_ranks='<=64', nProcs='<=32 (2-D), <=16 (3-D)'), 'thorough': dict(times_k='0..6', crosshair_timeout='240 s')}
 ORIG = {k: getattr(fio, k, None) for k in ('open', 'np', 'os', 'int', 'float')}
 
 
